@@ -336,9 +336,21 @@ pub fn run(args: &[String]) {
         let o = if o == "ok" && !clean { "FAIL C04: syntax diagnostics on a program of the reference grammar".to_string() } else { o };
         writeln!(w, "tree\t{}\t{}\t{}", enc_text(&text), r, o).unwrap();
     }
+    // (f0) \u{...} and \x.. escapes with every digit count up to 12 (value arithmetic of the unescaper, C01)
+    if arg_u64(args, "--escapes", 0) > 0 {
+        for nd in 0..=12usize {
+            for d in ["F", "1", "0", "8"] {
+                let digits = d.repeat(nd);
+                for text in [format!("x = \"\\u{{{digits}}}\";"), format!("\"a\\u{{{digits}\";"), format!("x = \"\\x{digits}\";"), format!("x = '\\u{{{digits}}}';")] {
+                    emit(&mut w, &text);
+                }
+            }
+        }
+    }
     // (f) string literals with escape sequences, valid and invalid, ASCII and not (validation spans, C12)
     for _ in 0..arg_u64(args, "--escapes", 0) {
-        let pieces = ["\\", "\\", "x", "u{", "}", "0", "7", "f", "Z", "é", "€", "😀", "q", "n", "t", "'", " ", "\\\\", "1F600", "D800", "110000", "_"];
+        let pieces = ["\\", "\\", "x", "u{", "}", "0", "7", "f", "Z", "é", "€", "😀", "q", "n", "t", "'", " ", "\\\\", "1F600", "D800", "110000", "_",
+                      "123456789", "FFFFFFFFFF", "00000000", "7fffffff", "80"];
         let n = 1 + rng.below(6);
         let mut body = String::new();
         for _ in 0..n {
